@@ -120,7 +120,42 @@ func c19GenValue(c *Ctx) (*VDesc, cty.Value) {
 	if c.G(3) != 0 && t.K <= KBool {
 		t = genType(c, depth, GenOpts{}) // prefer structures
 	}
-	o := GenOpts{Marks: c.G(3) != 0, Unknown: c.G(3) != 0, Null: c.G(3) != 0, Refine: true, MaxLen: maxLen, Collide: c.G(4) == 0}
+	confusable := c.G(8) == 0
+	if confusable {
+		// members whose paths are easily confused: the attribute names along them read the same when run together
+		// (a.bc / ab.c / "".abc / abc.""), optionally below the same index; path-keyed lookups must still tell them apart
+		leaf := []*TDesc{tString, tNumber, tBool, {K: KList, Elem: tString}}[c.G(4)]
+		pairs := [][2]string{{"a", "bc"}, {"ab", "c"}, {"", "abc"}, {"abc", ""}, {"a", "b"}, {"ab", ""}, {"", "ab"}}
+		outer := &TDesc{K: KObject}
+		byOuter := map[string]*TDesc{}
+		for _, pr := range pairs {
+			if c.G(3) == 0 {
+				continue
+			}
+			in := byOuter[pr[0]]
+			if in == nil {
+				in = &TDesc{K: KObject}
+				byOuter[pr[0]] = in
+				outer.Names = append(outer.Names, pr[0])
+				outer.Elems = append(outer.Elems, in)
+			}
+			in.Names = append(in.Names, pr[1])
+			in.Elems = append(in.Elems, leaf)
+		}
+		t = outer
+		switch c.G(4) {
+		case 0:
+			t = &TDesc{K: KList, Elem: outer}
+		case 1:
+			t = &TDesc{K: KTuple, Elems: []*TDesc{outer, tString}}
+		}
+		c.Probe("c19.confusable-paths")
+	}
+	o := GenOpts{Marks: c.G(3) != 0 || confusable, Unknown: c.G(3) != 0, Null: c.G(3) != 0, Refine: true, MaxLen: maxLen, Collide: c.G(4) == 0}
+	if confusable {
+		o.MarkDense = c.G(2) == 0
+		depth = 4
+	}
 	if depth > 3 {
 		o.MarkDense = c.G(2) == 1
 		o.Unknown, o.Null = o.Unknown && c.G(2) == 0, o.Null && c.G(2) == 0
